@@ -418,7 +418,7 @@ _DT = datetime.datetime
 UNITS = (("", "seconds"), ("s", "seconds"), ("sec", "seconds"), ("m", "minutes"), ("min", "minutes"),
          ("h", "hours"), ("d", "days"), ("w", "weeks"), ("ms", "milliseconds"), ("us", "microseconds"),
          ("seconds", "seconds"), ("hours", "hours"))
-TD_POOL = (("1h30m", _TD(hours=1, minutes=30)), ("1h 30m", _TD(hours=1, minutes=30)), ("1.5h", _TD(minutes=90)),
+TD_POOL = (("1h 30m", _TD(hours=1, minutes=30)), ("1.5h", _TD(minutes=90)),
            ("45", _TD(seconds=45)), (" 45s ", _TD(seconds=45)), ("1e3ms", _TD(seconds=1)), ("-2m", _TD(minutes=-2)),
            ("2 days", _TD(days=2)), (".5s", _TD(milliseconds=500)), ("1H", None),
            ("banana", None), ("10x", None), ("1h,30m", None), ("h", None), ("--1s", None))
